@@ -168,7 +168,7 @@ def showJO : JO → List String
   | .int n => [s!"i:{n}"]
   | .flt => ["F"]
   | .str s => ["s:" ++ hexOfBytes s]
-  | .tim => ["T"]
+  | .tim s ns => [s!"T:{s}:{ns}"]
   | .arr xs => "[" :: showJOs xs
   | .obj kvs => "{" :: showJOFields kvs
 def showJOs : List JO → List String
